@@ -118,12 +118,13 @@ pub mod rust_log_ref_finder
         lazy_static! {
             static ref RUST_COMMENT_PATTERN: Regex = Regex::new(r"\/\/(.+)|\/\*(.+)\*\/").unwrap();
 
-            // An unsigned integer literal, optionally followed by layout (whitespace as the grammar
+            // An unsigned integer literal, with the type suffix Breadlog itself writes for IDs above
+            // i32::MAX or without it, optionally followed by layout (whitespace as the grammar
             // defines it - that includes the left-to-right and right-to-left marks - and comments):
             // the grammar's key-value rule includes what separates the value from the following
             // "," or ";" in the value's span.
             static ref RUST_REF_VALUE_PATTERN: Regex =
-                Regex::new(r"(?s)^([0-9]+)(?:[\s\u{200E}\u{200F}]|/\*.*?\*/|//[^\n]*(?:\n|$))*$").unwrap();
+                Regex::new(r"(?s)^([0-9]+)(?:u32)?(?:[\s\u{200E}\u{200F}]|/\*.*?\*/|//[^\n]*(?:\n|$))*$").unwrap();
         }
 
         let mut result = Vec::new();
